@@ -334,6 +334,13 @@ fn object_arrays(ctx: &Ctx, maxlen: u32) {
             let eqx: Vec<V> = a.iter().filter(|o| getp(o, "p") == Some(V::s("x"))).cloned().collect();
             ctx.exact("where", "equal-to-target", i, "where: 'p', 'x'", &data, &darr(&eqx));
             ctx.exact("where", "absent-property", i, "where: 'zz'", &data, "[]");
+            // falsy targets: only objects that *have* the property (with an equal value) qualify; a missing
+            // property is not "equal to nil".  Equality is the value model's (nil == false there).
+            let has_falsy: Vec<V> = a.iter().filter(|o| matches!(getp(o, "p"), Some(v) if v == V::Nil || v == V::Bool(false))).cloned().collect();
+            ctx.exact("where", "equal-to-falsy-target", i, "where: 'p', nothing", &data, &darr(&has_falsy));
+            ctx.exact("where", "equal-to-falsy-target", i, "where: 'p', false", &data, &darr(&has_falsy));
+            ctx.exact("where", "absent-property", i, "where: 'zz', nothing", &data, "[]");
+            ctx.exact("where", "absent-property", i, "where: 'zz', 1", &data, "[]");
             // compact by property: drops objects whose property is nil or missing
             let comp: Vec<V> = a.iter().filter(|o| matches!(getp(o, "p"), Some(v) if v != V::Nil)).cloned().collect();
             ctx.exact("compact", "by-property", i, "compact: 'p'", &data, &darr(&comp));
@@ -364,7 +371,7 @@ fn object_arrays(ctx: &Ctx, maxlen: u32) {
         },
         |i| json!({"a": seq_decode(i, n, maxlen)}),
     );
-    ctx.report.family(FamilyStat { name, cases: total, nontrivial: total * 14, skipped: 0, note: "map where(truthy / target literal / target variable / absent) compact-by-property sort-by-property(stable) sort_natural-by-property uniq size; properties present, absent, nil, false".into() });
+    ctx.report.family(FamilyStat { name, cases: total, nontrivial: total * 18, skipped: 0, note: "map where(truthy / target literal / target variable / nil and false targets / absent) compact-by-property sort-by-property(stable) sort_natural-by-property uniq size; properties present, absent, nil, false".into() });
 }
 
 fn long_arrays(ctx: &Ctx, lens: &[usize]) {
